@@ -45,6 +45,9 @@ def verify(d):
         rc, out = sh([PY, "_demo.py"], wt, env, 900)
         res["demo_patched_exit"] = rc
         res["demo_patched_tail"] = out[-300:]
+        if os.environ.get("VERIFY_NO_SUITE") == "1":     # demos only (re-check after a fix commit; the suite was run when the change was stored)
+            res["confirmed"] = res["demo_clean_exit"] == 0 and res["demo_patched_exit"] != 0
+            return res
         rc, out = sh([PY, "-m", "pytest", "-q", "-p", "no:cacheprovider", "--timeout=900", "tests"], wt, env, 3000)
         res["suite_exit"] = rc
         res["suite_tail"] = out.strip().splitlines()[-1] if out.strip() else ""
